@@ -74,6 +74,13 @@ type Scenario struct {
 	Silent    bool      `json:"silent"`   // after the cancellation the peer sends nothing more (and does not close)
 	WS        bool      `json:"ws"`       // WebSocket framing (RFC 7395): <open/> instead of <stream:stream>
 	Prior     bool      `json:"prior"`    // the Negotiator value has negotiated another session before (see priorMode)
+	// A stream feature has three callbacks and each is a negotiation step that may report an error: List (the
+	// receiver advertises), Parse (the initiator reads the advertisement), Negotiate.  Fail names the features whose
+	// Negotiate fails, FailList / FailParse those whose List / Parse does; FailEarly: the failing callback reports
+	// its error before it has read or written anything (otherwise after its I/O).
+	FailList  []string `json:"faillist"`
+	FailParse []string `json:"failparse"`
+	FailEarly bool     `json:"failearly"`
 }
 
 var pool = map[string]Kind{}
@@ -167,22 +174,53 @@ func (r *run) mkFeature(k Kind) xmpp.StreamFeature {
 		Necessary:  stateOf(k.Nec),
 		Prohibited: stateOf(k.Pro),
 		List: func(ctx context.Context, e xmlstream.TokenWriter, start xml.StartElement) (bool, error) {
+			step := func(ok bool) { r.lg.Add(vt.Ev{"ev": "list", "f": k.ID, "ok": ok}) }
+			fail := has(r.sc.FailList, k.ID)
+			if fail && r.sc.FailEarly {
+				step(false)
+				return k.Lreq, errors.New("vt: scripted List failure of " + k.ID)
+			}
 			if k.Lreq {
 				start.Attr = append(start.Attr, xml.Attr{Name: xml.Name{Local: "req"}, Value: "1"})
 			}
 			if err := e.EncodeToken(start); err != nil {
+				step(false)
 				return k.Lreq, err
 			}
-			return k.Lreq, e.EncodeToken(start.End())
+			if err := e.EncodeToken(start.End()); err != nil {
+				step(false)
+				return k.Lreq, err
+			}
+			if fail {
+				step(false)
+				return k.Lreq, errors.New("vt: scripted List failure of " + k.ID)
+			}
+			step(true)
+			return k.Lreq, nil
 		},
 		Parse: func(ctx context.Context, d *xml.Decoder, start *xml.StartElement) (bool, interface{}, error) {
+			step := func(ok bool) { r.lg.Add(vt.Ev{"ev": "parse", "f": k.ID, "ok": ok}) }
+			fail := has(r.sc.FailParse, k.ID)
+			if fail && r.sc.FailEarly {
+				step(false)
+				return false, nil, errors.New("vt: scripted Parse failure of " + k.ID)
+			}
 			req := false
 			for _, a := range start.Attr {
 				if a.Name.Local == "req" && a.Value == "1" {
 					req = true
 				}
 			}
-			return req, nil, d.Skip()
+			if err := d.Skip(); err != nil {
+				step(false)
+				return req, nil, err
+			}
+			if fail {
+				step(false)
+				return req, nil, errors.New("vt: scripted Parse failure of " + k.ID)
+			}
+			step(true)
+			return req, nil, nil
 		},
 	}
 	if k.Neg {
@@ -195,6 +233,11 @@ func (r *run) mkFeature(k Kind) xmpp.StreamFeature {
 				return 0, nil, errors.New("vt: runaway negotiation loop")
 			}
 			ret := func(ok bool) { r.lg.Add(vt.Ev{"ev": "negret", "f": k.ID, "ok": ok}) }
+			if has(r.sc.Fail, k.ID) && r.sc.FailEarly {
+				// the step fails before it has read the selection / written anything
+				ret(false)
+				return 0, nil, errors.New("vt: scripted early negotiation failure of " + k.ID)
+			}
 			if s.State()&xmpp.Received != 0 {
 				// consume the selection element the session pushed back for us
 				rd := s.TokenReader()
@@ -390,7 +433,9 @@ func (r *run) starve() {
 			ok = r.sendHdr()
 			r.gotHdr = true
 			r.lastOut = "hdrsent"
-		case r.lastOut == "features" || r.lastOut == "neg":
+		case r.lastOut == "features" || r.lastOut == "neg" || r.lastOut == "hdr":
+			// ("hdr": the session has answered the header and waits for input although it never finished an
+			// advertisement - the peer goes by what it has seen of the list so far and selects)
 			ok = r.sendSel()
 			if ok {
 				r.lastOut = "selsent"
@@ -606,6 +651,11 @@ func genScenario(rnd *rand.Rand, ids []string, faults bool) Scenario {
 	for _, j := range perm[:n] {
 		sc.Cfg = append(sc.Cfg, ids[j])
 	}
+	// STARTTLS has a rule of its own on the initiating side (the forced attempt on the first list of a session):
+	// a third of the initiator scenarios that would not hold it get it in place of their first kind
+	if sc.Role == "init" && !has(sc.Cfg, "tls") && has(ids, "tls") && rnd.Intn(3) == 0 {
+		sc.Cfg[0] = "tls"
+	}
 	sort.Strings(sc.Cfg)
 	sc.Bits = [][]string{{}, {"Secure"}, {"Secure", "Authn"}}[rnd.Intn(3)]
 	addr := func() string {
@@ -667,6 +717,25 @@ func genScenario(rnd *rand.Rand, ids []string, faults bool) Scenario {
 		sc.Tee = 1 + rnd.Intn(3)
 	}
 	sc.WS = rnd.Intn(4) == 0
+	// failing List / Parse steps, and failing callbacks that fail before their I/O (drawn last: the other
+	// dimensions of a given seed stay what they were)
+	if rnd.Intn(4) == 0 {
+		for _, f := range sc.Cfg {
+			switch rnd.Intn(4) {
+			case 0:
+				sc.FailList = append(sc.FailList, f)
+			case 1:
+				sc.FailParse = append(sc.FailParse, f)
+			}
+		}
+	}
+	sc.FailEarly = rnd.Intn(2) == 0
+	if sc.FailList == nil {
+		sc.FailList = []string{}
+	}
+	if sc.FailParse == nil {
+		sc.FailParse = []string{}
+	}
 	return sc
 }
 
